@@ -106,6 +106,36 @@ def w_real(exe, addr, kind, cls):
     return part
 
 
+def w_highbits(exe, items):
+    """allow_tld values with bits outside the eleven defined ones (0x800 ... sign bit): only the class bit of the domain decides."""
+    part = {"counters": collections.Counter(), "viol": [], "samples": [], "distinct": 0, "sets": {}}
+    mdl = _model.Model()
+    lines, meta = [], []
+    for addr, cls in items:
+        bit = mdl.class_bit(cls)
+        for hb in (0x800, 0x1000, 0x10000, 0x40000000, 0x80000000, 0xfffff800):
+            for base in (0, bit, mdl.all_bits & ~bit, mdl.all_bits):
+                lines.append(driver.A_line(addr, sections=1, modes=15, tlds=2, allow=(base | hb) & 0xffffffff))
+                meta.append((addr, cls, base | hb, bool(base & bit)))
+    recs, crashes = driver.run_lines_resilient(exe, lines)
+    for idx, sig, err in crashes:
+        part["viol"].append(("highbits/crash/%s" % sig, {"address": core.b2s(meta[idx][0]) if idx >= 0 else ""}, {"stderr": err[-1200:]}))
+    for (addr, cls, mask, ok), r in zip(meta, recs):
+        if r is None:
+            continue
+        for m in range(4):
+            h = r["hl"].get(str(m * 2 + 1))
+            if h is None or h[0] < 0:
+                continue
+            part["counters"]["highbits.calls"] += 1
+            exp = (1, 0) if ok else (0, mdl.class_errcode(cls))
+            if (h[0], h[1]) != exp:
+                part["viol"].append(("highbits/%s/%s" % (cls, "accepts" if h[0] else "rejects"),
+                                     {"address": core.b2s(addr), "mode": MODES[m], "allow_tld": "0x%x" % mask}, {"observed": h[:2], "expected": list(exp)}))
+    part["distinct"] = len(lines)
+    return part
+
+
 def w_init(exe):
     part = {"counters": collections.Counter(), "viol": [], "samples": [], "distinct": 0, "sets": {}}
     mdl = _model.Model()
@@ -189,6 +219,8 @@ def main(tier, seed):
     for a, kind, cls in real:
         jobs.append((w_real, (exe, a, kind, cls)))
     jobs.append((w_init, (exe,)))
+    hb_items = [(a, cls) for a, kind, cls in real if kind == "class"][:: (3 if tier == "quick" else 1)]
+    jobs.append((w_highbits, (cx.exe("asan"), hb_items)))
     for part in core.pmap(_run, jobs):
         rep.merge(part)
     c = rep.counters
